@@ -1,6 +1,9 @@
 import SockModel.Model.SendLoopLemmas
 import SockModel.Spec.C01
 import SockModel.Generated.Funcs
+import SockModel.Model.GenWorld
+import SockModel.Generated.Loops
+import SockModel.Props.C16
 /-!
 # C01  TCP byte-stream integrity and exact send accounting
 
@@ -269,4 +272,239 @@ theorem tie_send_dispatch (data : Bytes) (t : Int) (os : Os) :
   simp only [send, Gen.Send_dispatch]
   repeat' split
   all_goals simp_all
+end SockModel.Props.C01
+
+/-! ## Source-derived tie, stage 2 (DESIGN.md §0.7): `SendNow`, `ReceiveNow`, `Receive`, `SendTry`, `SendAll`
+
+Generated from the clang AST of src/socket_impl.cpp on every run (Generated/Loops.lean), run in the model's world
+(`GenWorld.osWorld buf`: `::send(fd, data + off, len)` offers the bytes `(buf.drop off).take len`), tied to the
+hand-written `SendLoop.*` for every script.  Uses the tie of `Wait` from Props/C16.lean (imported).
+`Gen.SendSome` and its loop are generated as well; their tie is not proved yet (DESIGN.md §0.7). -/
+namespace SockModel.Props.C01
+open SockModel SockModel.SendLoop SockModel.Deadline SockModel.GenWorld
+
+/-- `Res.map` -/
+def mapRes {α β : Type} (f : α → β) : Res α → Res β
+  | .ok v => .ok (f v)
+  | .exn e => .exn e
+
+/-- **tie of `SendNow`**: offered the `len` bytes at offset `off` of a buffer, it does what the model's `sendNow`
+does with those bytes (result, exceptions, the `send` call and its argument, the script) -/
+theorem tie_SendNow (buf : Bytes) (fuel off len : Nat) (h : off + len ≤ buf.length) (h64 : len < 2 ^ 64)
+    (os : Os) (i : Bool) (e : Nat) :
+    (resOf Int.toNat (Gen.SendNow (osWorld buf) fuel off len ⟨os, i, e⟩).1,
+      (Gen.SendNow (osWorld buf) fuel off len ⟨os, i, e⟩).2.os) = sendNow ((buf.drop off).take len) os := by
+  have hl : ((buf.drop off).take len).length = len := by simp; omega
+  unfold Gen.SendNow sendNow
+  simp only [Gen.M.bind, send_eq, Int.toNat_natCast]
+  generalize (buf.drop off).take len = d at hl ⊢
+  subst hl
+  cases hs : os.sends with
+  | nil => simp [resOf]
+  | cons a rest =>
+    cases a with
+    | fail e' => simp [Gen.M.throw, Gen.M.bind, resOf, exnOf]
+    | accept a =>
+      by_cases h0 : min a d.length = 0 ∧ d.length > 0
+      · have h1 : ((min a d.length : Nat) : Int) = 0 ∧ (d.length : Int) > 0 := by omega
+        have h2 : ¬ ((min a d.length : Nat) : Int) < 0 := by omega
+        simp [h0, Gen.M.throw, resOf, exnOf]
+      · have h1 : ¬ (((min a d.length : Nat) : Int) = 0 ∧ (d.length : Int) > 0) := by omega
+        have h2 : ¬ ((min a d.length : Nat) : Int) < 0 := by omega
+        have h3 : (((min a d.length : Nat) : Int) % 18446744073709551616).toNat = min a d.length := by omega
+        simp only [h0, h1, h2, if_false, Gen.M.pure, resOf, h3]
+
+/-- **tie of `ReceiveNow`** (the generated code returns the count, the model the bytes) -/
+theorem tie_ReceiveNow (buf : Bytes) (fuel size : Nat) (h64 : size < 2 ^ 64) (os : Os) (i : Bool) (e : Nat) :
+    (resOf Int.toNat (Gen.ReceiveNow (osWorld buf) fuel size ⟨os, i, e⟩).1,
+      (Gen.ReceiveNow (osWorld buf) fuel size ⟨os, i, e⟩).2.os)
+      = (mapRes List.length (recvNow size os).1, (recvNow size os).2) := by
+  unfold Gen.ReceiveNow recvNow
+  simp only [Gen.M.bind, recv_eq, Int.toNat_natCast]
+  cases hr : os.recvs with
+  | nil => simp [resOf, mapRes]
+  | cons a rest =>
+    cases a with
+    | eof => simp [Gen.M.throw, resOf, exnOf, mapRes]
+    | fail e' => simp [Gen.M.throw, Gen.M.bind, resOf, exnOf, mapRes]
+    | got bs =>
+      have hle : (bs.take size).length ≤ size := by simp; omega
+      dsimp only
+      generalize bs.take size = tk at hle ⊢
+      cases tk with
+      | nil => simp [Gen.M.throw, resOf, exnOf, mapRes]
+      | cons x xs =>
+        have h1 : ¬ (((x :: xs).length : Nat) : Int) = 0 := by simp; omega
+        have h3 : ¬ (((x :: xs).length : Nat) : Int) < 0 := by omega
+        have h4 : ((((x :: xs).length : Nat) : Int) % 18446744073709551616).toNat = (x :: xs).length := by omega
+        simp only [h1, h3, if_false, Gen.M.pure, resOf, mapRes, h4, List.isEmpty_cons]
+        simp
+
+open SockModel.Props.C16 in
+/-- **tie of `Receive(fd, data, size, timeout)`** -/
+theorem tie_Receive (buf : Bytes) (fuel size : Nat) (h64 : size < 2 ^ 64) (t : Int) (os : Os) (i : Bool) (e : Nat)
+    (hf : os.polls.length < fuel) :
+    (resOf (Option.map Int.toNat) (Gen.Receive (osWorld buf) fuel size t ⟨os, i, e⟩).1,
+      (Gen.Receive (osWorld buf) fuel size t ⟨os, i, e⟩).2.os)
+      = (mapRes (Option.map List.length) (receive size t os).1, (receive size t os).2) := by
+  obtain ⟨g, i', e', hg, hr⟩ := waitReadable_run buf fuel t os i e hf
+  unfold Gen.Receive receive
+  simp only [Gen.M.bind, hg]
+  cases hw : wait t os with
+  | mk r os1 =>
+    rw [hw] at hr
+    simp only at hr
+    cases g with
+    | halted => simp only [resOf] at hr; subst hr; simp [resOf, mapRes]
+    | thrown x => simp only [resOf] at hr; subst hr; simp [resOf, mapRes]
+    | ok b =>
+      simp only [resOf, id] at hr
+      subst hr
+      cases b with
+      | false => simp [Gen.M.pure, resOf, mapRes]
+      | true =>
+        have hn := tie_ReceiveNow buf fuel size h64 os1 i' e'
+        simp only [Bool.not_true, if_false, not_true_eq_false, Gen.M.bind]
+        generalize Gen.ReceiveNow (osWorld buf) fuel size ⟨os1, i', e'⟩ = q at hn ⊢
+        generalize recvNow size os1 = m at hn ⊢
+        obtain ⟨qr, qw⟩ := q
+        obtain ⟨mr, mo⟩ := m
+        simp only [Prod.mk.injEq] at hn
+        obtain ⟨h1, h2⟩ := hn
+        subst h2
+        cases qr <;> cases mr <;> simp [resOf, mapRes, Gen.M.pure] at h1 ⊢ <;> first | exact h1 | simp_all
+
+/-- how a generated `SendNow` runs, in the form the callers' proofs use -/
+theorem sendNow_run (buf : Bytes) (fuel off len : Nat) (h : off + len ≤ buf.length) (h64 : len < 2 ^ 64)
+    (os : Os) (i : Bool) (e : Nat) :
+    ∃ g i' e', Gen.SendNow (osWorld buf) fuel off len ⟨os, i, e⟩ = (g, ⟨(sendNow ((buf.drop off).take len) os).2, i', e'⟩) ∧
+      resOf Int.toNat g = (sendNow ((buf.drop off).take len) os).1 ∧ (∀ v, g = .ok v → 0 ≤ v) := by
+  have h1 := tie_SendNow buf fuel off len h h64 os i e
+  have h2 : ∀ v, (Gen.SendNow (osWorld buf) fuel off len ⟨os, i, e⟩).1 = .ok v → 0 ≤ v := by
+    intro v
+    unfold Gen.SendNow
+    simp only [Gen.M.bind, send_eq]
+    cases os.sends with
+    | nil => simp
+    | cons a rest =>
+      cases a <;> simp only [] <;> repeat' split
+      all_goals simp [Gen.M.throw, Gen.M.pure, Gen.M.bind]
+      all_goals omega
+  generalize Gen.SendNow (osWorld buf) fuel off len ⟨os, i, e⟩ = r at h1 h2
+  obtain ⟨g, ⟨o, i', e'⟩⟩ := r
+  refine ⟨g, i', e', ?_, ?_, fun v hv => h2 v (by simp [hv])⟩
+  · have : o = (sendNow ((buf.drop off).take len) os).2 := by rw [← h1]
+    rw [this]
+  · rw [← h1]
+
+open SockModel.Props.C16 in
+/-- **tie of `SendTry`** -/
+theorem tie_SendTry (buf : Bytes) (fuel : Nat) (h64 : buf.length < 2 ^ 64) (os : Os) (i : Bool) (e : Nat)
+    (hf : os.polls.length < fuel) :
+    (resOf Int.toNat (Gen.SendTry (osWorld buf) fuel 0 buf.length ⟨os, i, e⟩).1,
+      (Gen.SendTry (osWorld buf) fuel 0 buf.length ⟨os, i, e⟩).2.os) = sendTry buf os := by
+  obtain ⟨g, i', e', hg, hr⟩ := waitWritable_run buf fuel 0 os i e hf
+  unfold Gen.SendTry sendTry
+  simp only [Gen.M.bind, hg]
+  cases hw : wait 0 os with
+  | mk r os1 =>
+    rw [hw] at hr
+    simp only at hr
+    cases g with
+    | halted => simp only [resOf] at hr; subst hr; simp [resOf]
+    | thrown x => simp only [resOf] at hr; subst hr; simp [resOf]
+    | ok b =>
+      simp only [resOf, id] at hr
+      subst hr
+      cases b with
+      | false => simp [Gen.M.pure, resOf]
+      | true =>
+        obtain ⟨q, i2, e2, hq, hqr, _⟩ := sendNow_run buf fuel 0 buf.length (by omega) h64 os1 i' e'
+        have hb : (buf.drop 0).take buf.length = buf := by simp
+        rw [hb] at hq hqr
+        have hq' : Gen.SendNow (osWorld buf) fuel (0 : Int) (buf.length : Int) ⟨os1, i', e'⟩ = _ := hq
+        simp only [Bool.not_true, if_false, not_true_eq_false, Gen.M.bind, hq']
+        cases q <;> simp [resOf, Gen.M.pure] at hqr ⊢ <;> rw [hqr]
+
+open SockModel.Props.C16 in
+/-- the loop of `SendAll`, started anywhere in the buffer: invariant `off + len = buf.length`, the model's
+`sent` is `off` -/
+theorem sendAll_loop_tie (buf : Bytes) (fuel : Nat) (h64 : buf.length < 2 ^ 64) :
+    ∀ (n off len : Nat) (os : Os) (i : Bool) (e : Nat), off + len = buf.length → os.polls.length < fuel →
+      os.sends.length < n →
+      (resOf Int.toNat (Gen.SendAll_loop1 (osWorld buf) fuel buf.length (-1) n off len ⟨os, i, e⟩).1,
+        (Gen.SendAll_loop1 (osWorld buf) fuel buf.length (-1) n off len ⟨os, i, e⟩).2.os)
+        = sendAllLoop (os.sends.length + 1) (buf.drop off) off os := by
+  intro n
+  induction n with
+  | zero => intro off len os i e _ _ h; omega
+  | succ n ih =>
+    intro off len os i e hinv hp hs
+    obtain ⟨g, i1, e1, hg, hr⟩ := waitWritable_run buf fuel (-1) os i e hp
+    unfold Gen.SendAll_loop1
+    rw [sendAllLoop]
+    simp only [Gen.M.bind, hg]
+    cases hw : wait (-1) os with
+    | mk r os1 =>
+      have hwf := wait_spec hw (by decide) (by decide)
+      rw [hw] at hr
+      simp only at hr
+      cases g with
+      | halted => simp only [resOf] at hr; subst hr; simp [resOf]
+      | thrown x => simp only [resOf] at hr; subst hr; simp [resOf]
+      | ok b =>
+        simp only [resOf, id] at hr
+        subst hr
+        obtain ⟨q, i2, e2, hq, hqr, hpos⟩ := sendNow_run buf fuel off len (by omega) (by omega) os1 i1 e1
+        have hb : (buf.drop off).take len = buf.drop off := by
+          apply List.take_of_length_le; simp; omega
+        rw [hb] at hq hqr
+        simp only [hq]
+        cases hsn : sendNow (buf.drop off) os1 with
+        | mk sr os2 =>
+          have hsf := sendNow_facts hsn
+          rw [hsn] at hqr
+          simp only at hqr
+          cases q with
+          | halted => simp only [resOf] at hqr; subst hqr; simp [resOf]
+          | thrown x => simp only [resOf] at hqr; subst hqr; simp [resOf]
+          | ok v =>
+            simp only [resOf] at hqr
+            subst hqr
+            have hv : 0 ≤ v := hpos v rfl
+            obtain ⟨hpl, _, _, _, _, hsl, m, hm, _, hmk⟩ := hsf
+            have hk := (hmk v.toNat rfl).1
+            have hlen : (buf.drop off).length = len := by simp; omega
+            have hsl' := hsl (by simp)
+            have hvk : v = ((v.toNat : Nat) : Int) := by omega
+            by_cases hz : len - v.toNat = 0
+            · have h1 : (len : Int) - v = 0 := by omega
+              have h2 : (buf.drop off).drop v.toNat = [] := by
+                apply List.drop_of_length_le; omega
+              have h3 : (((buf.length : Int) - ((len : Int) - v)) % 18446744073709551616).toNat = off + v.toNat := by omega
+              simp [h1, h2, Gen.M.pure, resOf]
+              omega
+            · have h1 : ¬ (len : Int) - v = 0 := by omega
+              have h2 : ((buf.drop off).drop v.toNat).isEmpty = false := by
+                cases hd : (buf.drop off).drop v.toNat with
+                | nil => have := congrArg List.length hd; simp at this; omega
+                | cons _ _ => rfl
+              have hih := ih (off + v.toNat) (len - v.toNat) os2 i2 e2 (by omega) (by rw [hpl]; omega) (by rw [← hwf.2.1] at hs; omega)
+              have h4 : (off : Int) + v = ((off + v.toNat : Nat) : Int) := by omega
+              have h5 : (len : Int) - v = ((len - v.toNat : Nat) : Int) := by omega
+              have h6 : os2.sends.length + 1 = os.sends.length := by rw [← hwf.2.1]; exact hsl'
+              rw [h6] at hih
+              simp only [h1, h2, h4, h5, not_false_eq_true, if_true, if_false, Bool.false_eq_true]
+              simpa [List.drop_drop, Nat.add_comm, hz] using hih
+
+/-- **tie of `SendAll`**: on every script, with a fuel above the number of scripted `poll` and `send` answers, the
+function generated from the C++ source returns what the model's `sendAll` returns (count / exception) and leaves
+the same OS behind (same calls with the same arguments and bytes, same clock, same rest of the script) -/
+theorem tie_SendAll (buf : Bytes) (fuel : Nat) (h64 : buf.length < 2 ^ 64) (os : Os) (i : Bool) (e : Nat)
+    (hp : os.polls.length < fuel) (hs : os.sends.length < fuel) :
+    (resOf Int.toNat (Gen.SendAll (osWorld buf) fuel 0 buf.length ⟨os, i, e⟩).1,
+      (Gen.SendAll (osWorld buf) fuel 0 buf.length ⟨os, i, e⟩).2.os) = sendAll buf os := by
+  have := sendAll_loop_tie buf fuel h64 (Gen.loopFuel fuel) 0 buf.length os i e (by omega) hp hs
+  unfold Gen.SendAll sendAll
+  simpa using this
 end SockModel.Props.C01
